@@ -854,3 +854,71 @@ pub fn replay(ctx: &Ctx, _sub: &str, case: &Value) {
         ctx.check_case("replay", Err(f), || case.clone());
     }
 }
+
+/// Run a history (restores ignored) against a given context without a model — used by the scripted buildpack (C20).
+pub fn apply_ops(bc: &BuildContext<HB>, ops: &[Op], names: &[&str], side: &Path) -> Result<(), String> {
+    let mut refs: BTreeMap<u8, Box<dyn RefOps>> = BTreeMap::new();
+    for op in ops {
+        match op {
+            Op::Restore => {}
+            Op::Cached { name, build, launch, m, on_restored, on_invalid } => {
+                let key = *name % names.len() as u8;
+                let ln: LayerName = names[key as usize].parse().map_err(|_| "layer name".to_string())?;
+                let log = RefCell::new(vec![]);
+                match dispatch_cached(bc, &ln, *build, *launch, *m, on_restored, on_invalid, &log) {
+                    Ok(lr) => {
+                        refs.insert(key, lr);
+                    }
+                    Err(e) if e.starts_with("buildpack-error") => {
+                        refs.remove(&key);
+                    }
+                    Err(e) => return Err(e),
+                }
+            }
+            Op::Uncached { name, build, launch } => {
+                let key = *name % names.len() as u8;
+                let ln: LayerName = names[key as usize].parse().map_err(|_| "layer name".to_string())?;
+                match bc.uncached_layer(&ln, UncachedLayerDefinition { build: *build, launch: *launch }) {
+                    Ok(lr) => {
+                        refs.insert(key, Box::new(lr));
+                    }
+                    Err(e) => return Err(format!("{e:?}")),
+                }
+            }
+            Op::WriteMetadata { name, value } => {
+                if let Some(lr) = refs.get(&(*name % names.len() as u8)) {
+                    lr.w_metadata(value)?;
+                }
+            }
+            Op::WriteEnv { name, entries } => {
+                if let Some(lr) = refs.get(&(*name % names.len() as u8)) {
+                    lr.w_env(entries)?;
+                    let _ = lr.r_env()?;
+                }
+            }
+            Op::WriteSboms { name, sboms } => {
+                if let Some(lr) = refs.get(&(*name % names.len() as u8)) {
+                    lr.w_sboms(sboms)?;
+                }
+            }
+            Op::WriteExecD { name, progs } => {
+                if let Some(lr) = refs.get(&(*name % names.len() as u8)) {
+                    let m: BTreeMap<String, Vec<u8>> = progs.iter().cloned().collect();
+                    lr.w_execd(m.iter().map(|(n, d)| (n.clone(), exec_d_source(side, n, d))).collect())?;
+                }
+            }
+            Op::WritePlain { name, path, data } => {
+                if let Some(lr) = refs.get(&(*name % names.len() as u8)) {
+                    let p = lr.lpath().join(path);
+                    std::fs::create_dir_all(p.parent().unwrap()).map_err(|e| e.to_string())?;
+                    std::fs::write(&p, data).map_err(|e| e.to_string())?;
+                }
+            }
+        }
+    }
+    Ok(())
+}
+
+pub fn history_strategy_for_bp(nnames: u8) -> impl Strategy<Value = Vec<Op>> {
+    structured_history_strategy(nnames, 2)
+}
